@@ -33,7 +33,7 @@ STATE_MEASURE = "(policy, db kind, store fault kind, table-coverage class of the
 PROBES = [
     "lookup_tabulated", "lookup_fallback_pass", "lookup_fallback_warning_logged", "lookup_fallback_error_raised", "invalid_policy_config_error", "eop_exception_cached",
     "healed_after_restart", "late_arrival_without_restart", "day_boundary_date", "table_edge_date", "uncovered_date", "twin_equal_and_hash_checked", "range_negative_step",
-    "range_abandoned_then_reiterated", "range_interleaved", "membership_other_scale_near_end", "now_under_clock_jump", "policy_flipped", "db_flipped", "flaky_day_hit", "sub_microsecond_reading_before_tai_midnight",
+    "range_abandoned_then_reiterated", "range_interleaved", "membership_other_scale_near_end", "now_under_clock_jump", "policy_flipped", "db_flipped", "flaky_day_hit", "sub_microsecond_reading_before_tai_midnight", "range_attributes_reassigned", "date_cloned",
 ]
 REAL_VS_STUB = "real: beyond.dates.date (Date, DateRange, Timescale), beyond.dates.eop (readers, SimpleEopDatabase, EopDb, policies), config; stub: Path seen by eop.py (simulated disk with faults), datetime seen by date.py (virtual wall clock), extra registered databases (zero / flaky / raising); model: sim/models/timescales.py"
 ASSUMPTIONS = [
@@ -87,7 +87,7 @@ def gen_life(rng, first):
         life["fault"] = {"kind": kind, "file": rng.choice(FILES), "line": rng.randrange(16000), "col": rng.randrange(58, 68), "late_arrival_after": rng.choice([None, None, 3])}
     ops = []
     for _ in range(rng.randint(6, 14)):
-        k = rng.choice(["date"] * 6 + ["twin", "twin", "arith", "arith", "order", "now", "range", "range", "config"])
+        k = rng.choice(["date"] * 6 + ["twin", "twin", "arith", "arith", "order", "now", "range", "range", "config", "clone", "clone"])
         op = {"op": k}
         if k == "date":
             op.update(ctor=rng.choice(["ymd", "mjd_pair", "datetime", "mjd_float", "copy"]), scale=rng.choice(SCALES), day=gen_day(rng), us=gen_us(rng))
@@ -105,6 +105,8 @@ def gen_life(rng, first):
             op.update(of=rng.randrange(8), t1_us=rng.choice([1, 10**6, rng.randrange(-10**12, 10**12), rng.randrange(ts.US_DAY), -rng.randrange(ts.US_DAY)]), t2_us=rng.randrange(-10**11, 10**11))
         elif k == "order":
             op.update(a=rng.randrange(8), b=rng.randrange(8))
+        elif k == "clone":
+            op.update(of=rng.randrange(8), how=rng.choice(["pickle_same", "pickle_other_process", "copy", "deepcopy"]))
         elif k == "now":
             op.update(clock=[rng.choice([1975, 1999, 2016, 2016, 2030]), rng.randint(1, 12), rng.randint(1, 28), rng.randint(0, 23), rng.randint(0, 59), rng.randint(0, 59), rng.randrange(10**6)], scale=rng.choice(SCALES))
         elif k == "range":
@@ -115,6 +117,7 @@ def gen_life(rng, first):
                 day=gen_day(rng), us=gen_us(rng), scale=rng.choice(EXACT), step_us=step, dur_us=(n * abs(step) + rem) * (1 if step > 0 else -1), inclusive=rng.random() < 0.5,
                 stop_as=rng.choice(["date", "timedelta"]), consume=rng.choice(["full", "abandon_then_again", "interleave"]), k=rng.randint(1, 4),
                 probe_scale=rng.choice(SCALES[:4]), probe_delta_us=rng.choice([0, 1, -1, 10**7, -10**7, 4 * 10**7, -4 * 10**7, 8 * 10**7]),
+                reassign=rng.choice([None, None, None, "reverse", "step", "stop"]),
             )
         else:
             op.update(what=rng.choice(["policy", "policy", "dbname"]), value=rng.choice(["pass", "warning", "error"]))
@@ -613,6 +616,63 @@ class World:
             if self.policy in ("pass", "warning"):
                 ctx.violate("arithmetic", {"kind": "arithmetic_crashes", "exc": type(e).__name__}, f"{where}: date arithmetic raised {type(e).__name__}: {e}")
 
+    def op_clone(self, op, where):
+        """A date sent to another process (pickle) or copied denotes the same instant, carries the same corrections and converts alike."""
+        import copy
+        import pickle
+
+        ctx = self.ctx
+        cands = [p for p in self.pool if p["cls"] is not None]
+        if not cands:
+            return
+        p = cands[op["of"] % len(cands)]
+        d = p["d"]
+        how = op["how"]
+        holder = self.node
+        if how == "pickle_other_process" and ((self.dbname or "default") != "default" or self.text_fault or self.access_fault or self.healed_in_life):
+            how = "pickle_same"  # the peer only knows the file-backed database of the shared disk
+        try:
+            if how == "copy":
+                c = copy.copy(d)
+            elif how == "deepcopy":
+                c = copy.deepcopy(d)
+            else:
+                data = pickle.dumps(d)
+                if how == "pickle_other_process":
+                    # same disk (tables), same configuration, another process
+                    holder = Node("peer", disk=self.disk)
+                    with holder:
+                        holder.config.update(self.node.config)
+                    ctx.fault("msg_to_other_node")
+                with holder:
+                    c = pickle.loads(data)
+        except Exception as e:  # noqa
+            ctx.violate("identity", {"how": how, "scale": p["scale"], "kind": "clone_raises", "exc": type(e).__name__}, f"{where}: {how} of the existing date {d} raised {type(e).__name__}: {e}")
+            return
+        ctx.checks += 1
+        ctx.probe("date_cloned")
+        fp = {"how": how, "scale": p["scale"]}
+        with holder:
+            same = (float(c.eop.ut1_utc), float(c.eop.tai_utc)) == (p["u"], p["L"]) and us_of(c.datetime) == p["reading"] and c.scale.name == p["scale"]
+            if not same:
+                ctx.violate("identity", dict(fp, kind="clone_differs"), f"{where}: {how} of {d} gives {c} with UT1-UTC={c.eop.ut1_utc}, TAI-UTC={c.eop.tai_utc} (original {p['u']}, {p['L']})")
+                return
+            for X in SCALES:
+                if X == p["scale"]:
+                    continue
+                try:
+                    a = us_of(c.change_scale(X).datetime)
+                except Exception:  # noqa
+                    a = None
+                with self.node:
+                    try:
+                        b = us_of(d.change_scale(X).datetime)
+                    except Exception:  # noqa
+                        b = None
+                if a != b and not (self.text_fault or self.access_fault or self.healed_in_life):
+                    ctx.violate("identity", dict(fp, kind="clone_converts_differently", to=X), f"{where}: {how} of {d} converts to {X} as {dt_of(a).isoformat() if a is not None else None}, the original as {dt_of(b).isoformat() if b is not None else None}")
+                    return
+
     def op_order(self, op, where):
         ctx = self.ctx
         cands = [p for p in self.pool if p["tai"] is not None]
@@ -684,7 +744,22 @@ class World:
         if step < 0:
             ctx.probe("range_negative_step")
         try:
-            r = Date.range(start, stop, td(microseconds=step), inclusive=op["inclusive"])
+            ra = op.get("reassign")
+            if ra:
+                # "allow for manipulation of the range before any computation": the range is created with other parameters and its
+                # public attributes are then set to the intended ones
+                stop_d = Date(dt_of(stop_r), scale=scale)
+                if ra == "reverse":
+                    r = Date.range(stop_d, start, td(microseconds=-step), inclusive=not op["inclusive"])
+                elif ra == "step":
+                    r = Date.range(start, stop_d, td(microseconds=step * 3), inclusive=op["inclusive"])
+                else:
+                    r = Date.range(start, start + td(microseconds=step * 2), td(microseconds=step), inclusive=op["inclusive"])
+                r.start, r.stop, r.step, r.inclusive = start, stop_d, td(microseconds=step), op["inclusive"]
+                ctx.probe("range_attributes_reassigned")
+                ctx.nontrivial = True
+            else:
+                r = Date.range(start, stop, td(microseconds=step), inclusive=op["inclusive"])
         except Exception as e:  # noqa
             ctx.violate("range", dict(fp, kind="range_refused", exc=type(e).__name__), f"{where}: Date.range({start}, {stop}, {td(microseconds=step)}) raised {type(e).__name__}: {e}")
             return
